@@ -225,4 +225,31 @@ void runSaveSeq(const Opts& o, long idx, CaseLog& log) {
     log.line("RES %ld ok window=%ld..%ld", idx, a, b);
 }
 
+
+// C19: floating-point environment probe.  Rates at the extremes of the float range (subnormal, tiny, huge) drive the only float ARITHMETIC the
+// library does (rate comparison, ANALOG:RATE / POINT:RATE).  No absolute verdict: the log lines are compared across build configurations.
+void runFpProbe(const Opts& o, long idx, CaseLog& log) {
+    typedef ezc3d::ParametersNS::GroupNS::Parameter Param;
+    static const uint32_t base[] = {0x00010000u, 0x00000001u, 0x007fffffu, 0x00800000u, 0x00800001u, 0x0d000000u, 0x3f800000u, 0x42c80000u, 0x7f000000u, 0x7f7fffffu, 0x33800000u, 0x1e3ce508u};
+    Rng r(o.seed, (uint64_t)idx * 31 + 7);
+    uint32_t pb = base[idx % (sizeof base / sizeof base[0])]; if (idx >= 48) pb = (uint32_t)r.below(0x7f800000u);
+    int k = (int)(1 + (idx / 12) % 4) + (idx >= 48 ? (int)r.below(6) : 0);
+    float pr = bitsf(pb), ar = pr * (float)k; if ((idx / 3) % 5 == 4) ar = bitsf(pb * (uint32_t)k);     // also: k times the BIT pattern (exact for subnormals)
+    ezc3d::c3d c; std::ostringstream tr;
+    { Outcome oc; Param p("RATE"); p.set(std::vector<float>(1, pr)); VF_TRY(oc, c.parameter("POINT", p)); tr << "prate:" << oc.cls; }
+    { Outcome oc; Param p("RATE"); p.set(std::vector<float>(1, ar)); VF_TRY(oc, c.parameter("ANALOG", p)); tr << " arate:" << oc.cls; }
+    { Outcome oc; VF_TRY(oc, c.point("P")); tr << " point:" << oc.cls; } { Outcome oc; VF_TRY(oc, c.analog("A")); tr << " analog:" << oc.cls; }
+    tr << " sub=" << c.header().nbAnalogByFrame() << " hrate=" << std::hex << fbits(c.header().frameRate()) << std::dec;
+    ezc3d::DataNS::Frame f; ezc3d::DataNS::Points3dNS::Points pts; ezc3d::DataNS::Points3dNS::Point pt; pt.name("P"); pt.x(pr); pt.y(ar); pt.z(pr * 0.5f); pts.point(pt);
+    ezc3d::DataNS::AnalogsNS::Analogs an; for (size_t s = 0; s < c.header().nbAnalogByFrame() && s < 64; ++s) { ezc3d::DataNS::AnalogsNS::SubFrame sf; ezc3d::DataNS::AnalogsNS::Channel ch; ch.name("A"); ch.data(pr * (float)(s + 1)); sf.channel(ch); an.subframe(sf); }
+    f.add(pts, an);
+    { Outcome oc; VF_TRY(oc, c.frame(f)); tr << " frame:" << oc.cls; }
+    char fp[700]; snprintf(fp, sizeof fp, "%s/fp_%ld.c3d", o.out.c_str(), idx);
+    { Outcome oc; VF_TRY(oc, c.write(fp)); tr << " save:" << oc.cls; if (!oc.threw) { tr << " bytes=" << std::hex << fnv(readFileBytes(fp)) << std::dec;
+        Outcome lo; std::unique_ptr<ezc3d::c3d> l; VF_TRY(lo, l.reset(new ezc3d::c3d(fp))); tr << " load:" << lo.cls; if (l) tr << " lsub=" << l->header().nbAnalogByFrame() << " snap=" << std::hex << hashSnap(take(*l)) << std::dec; } }
+    Outcome none; log.ev("fpprobe", tr.str(), none);
+    log.line("RES %ld %08x x%d %s", idx, pb, k, tr.str().c_str());
+    unlink(fp);
+}
+
 }  // namespace vf
